@@ -261,6 +261,15 @@ func genLabels(t *rapid.T, label string, max int) map[string]string {
 	return out
 }
 
+func sortedKeysOf(m map[string]string) []string {
+	ks := make([]string, 0, len(m))
+	for k := range m {
+		ks = append(ks, k)
+	}
+	sort.Strings(ks)
+	return ks
+}
+
 func genGroups(t *rapid.T, label string, maxGroups, maxTargets int, badAddr bool) []grpSpec {
 	var out []grpSpec
 	ng := rapid.IntRange(1, maxGroups).Draw(t, label+"-nGroups")
@@ -278,6 +287,13 @@ func genGroups(t *rapid.T, label string, maxGroups, maxTargets int, badAddr bool
 			pool := addrPool
 			if badAddr && rapid.IntRange(0, 9).Draw(t, tl+"-badAddr") == 0 {
 				pool = []string{"", "host/with/slash:80", "host-a"}
+			}
+			if len(gs.Labels) > 0 && rapid.IntRange(0, 5).Draw(t, tl+"-emptyOverride") == 0 {
+				// the target carries a label of its group with an empty value: the target's (absent) value wins
+				for _, k := range sortedKeysOf(gs.Labels) {
+					tg[k] = ""
+					break
+				}
 			}
 			tg["__address__"] = rapid.SampledFrom(pool).Draw(t, tl+"-addr")
 			if tg["__address__"] == "" {
